@@ -5,7 +5,7 @@ use crate::case::{Api, Be, Fam};
 use crate::exec::{push_record, typed_backends};
 use crate::gen;
 use crate::mem::{standard_places, Place};
-use crate::p_sub::{exhaustive_pairs, level, prefilter_history, structured_pairs};
+use crate::p_sub::{exhaustive_pairs, inflated_pairs, level, prefilter_history, structured_pairs};
 use crate::runner::{Runner, Tier};
 
 fn iter_apis(r: &Runner) -> Vec<Api> {
@@ -432,6 +432,11 @@ pub fn sub_iters(r: &mut Runner) {
     exhaustive_pairs(r, b"ab", nmax, hmax, &[(0, 0)], &mut run_pair);
     if lvl >= 1 {
         exhaustive_pairs(r, b"ab", 4, if lvl == 1 { 7 } else { 9 }, &[(100, 0), (100, 91), (300, 150)], &mut run_pair);
+    }
+    if lvl >= 1 {
+        let (nr, hmax) = if lvl == 1 { ((6, 7), 8) } else { ((5, 8), 9) };
+        inflated_pairs(r, nr, hmax, &mut run_pair);
+        inflated_pairs(r, (3, 4), if lvl == 1 { 8 } else { 10 }, &mut run_pair);
     }
     structured_pairs(r, if lvl >= 2 { 700 } else { 130 }, &mut run_pair);
     // prefilter history: matches after the prefilter went inert / while it is
